@@ -118,6 +118,7 @@ pub struct Ctx {
     tr_count: u64,
     pub tr_lines: u64,
     pub capped: Vec<String>,
+    only_class: bool,
 }
 
 // progress / fault reporting state (process-global, read by signal handler and watchdog)
@@ -282,6 +283,7 @@ impl Ctx {
             tr_count: 0,
             tr_lines: 0,
             capped: Vec::new(),
+            only_class: std::env::var("NBMC_ONLY_CLASS").is_ok(),
         }
     }
     pub fn is_replay(&self) -> bool {
@@ -382,6 +384,14 @@ impl Ctx {
         }
     }
     pub fn viol(&mut self, key: String, what: &str, args: Vec<String>, expected: String, got: String) {
+        if self.only_class {
+            // C14 mode: only outcome-class violations count (panic / no panic / None / fault)
+            let w = what.to_ascii_lowercase();
+            let class = w.contains("panic") || w.contains("fault") || w.contains("terminate") || w.contains("checked") || got.starts_with("panic") || got.starts_with("Panic") || w.contains("instead of") || w.contains("accepted");
+            if !class {
+                return;
+            }
+        }
         self.viol_total += 1;
         if self.viols.len() < MAX_VIOLS_PER_WORKER && !self.viols.iter().any(|v| v.key == key) {
             self.viols.push(Viol { key, space: self.cur_space.clone(), outer: self.cur_outer, what: what.to_string(), args, expected, got });
@@ -467,6 +477,11 @@ fn load_known(id: &str) -> Vec<Known> {
         }
     }
     out
+}
+
+/// The property id under which this run reports (C14 re-runs other properties' binaries).
+fn eff_id(spec: &Spec) -> String {
+    std::env::var("NBMC_AS").unwrap_or_else(|_| spec.id.to_string())
 }
 
 fn hash_str(s: &str) -> u64 {
@@ -602,6 +617,8 @@ fn merge_into(m: &mut Merged, v: &Value) {
 
 fn supervise(spec: &Spec, tier: Tier, seed: u64) -> i32 {
     let t0 = Instant::now();
+    let id = eff_id(spec);
+    let id = id.as_str();
     let ncpu = std::thread::available_parallelism().map(|n| n.get()).unwrap_or(4);
     let n = std::env::var("NBMC_WORKERS").ok().and_then(|s| s.parse().ok()).unwrap_or(ncpu).min(spec.max_workers).max(1);
     let exe = std::env::current_exe().unwrap();
@@ -751,7 +768,7 @@ fn supervise(spec: &Spec, tier: Tier, seed: u64) -> i32 {
         }
     }
 
-    let known = load_known(spec.id);
+    let known = load_known(id);
     let mut known_hits: Vec<(&Known, &Viol)> = Vec::new();
     let mut fresh: Vec<&Viol> = Vec::new();
     for v in &m.viols {
@@ -766,14 +783,14 @@ fn supervise(spec: &Spec, tier: Tier, seed: u64) -> i32 {
     let mut lines = Vec::new();
     for v in &fresh {
         let config = std::env::var("NBMC_CONFIG").unwrap_or_else(|_| "rel".to_string());
-        let name = format!("{}-{:016x}.json", spec.id, hash_str(&format!("{}{}", config, v.key)));
+        let name = format!("{}-{:016x}.json", id, hash_str(&format!("{}{}{}", config, spec.id, v.key)));
         let p = rdir.join(&name);
-        let j = json!({"property": spec.id, "tier": tier.name(), "seed": seed, "config": config, "violation": v.to_json()});
+        let j = json!({"property": id, "bin": spec.id.to_lowercase(), "tier": tier.name(), "seed": seed, "config": config, "violation": v.to_json()});
         let _ = std::fs::write(&p, serde_json::to_string_pretty(&j).unwrap());
-        lines.push(format!("VIOLATION property={} replay=replays/{}  # [{}] {} :: expected {} got {}", spec.id, name, config, v.what, trunc(&v.expected), trunc(&v.got)));
+        lines.push(format!("VIOLATION property={} replay=replays/{}  # [{}] {} :: expected {} got {}", id, name, config, v.what, trunc(&v.expected), trunc(&v.got)));
     }
     for (k, v) in &known_hits {
-        println!("KNOWN-FINDING: property={} {} ({})", spec.id, v.key, if k.desc.is_empty() { &v.what } else { &k.desc });
+        println!("KNOWN-FINDING: property={} {} ({})", id, v.key, if k.desc.is_empty() { &v.what } else { &k.desc });
     }
     for l in lines.iter().take(40) {
         println!("{}", l);
@@ -799,7 +816,8 @@ fn supervise(spec: &Spec, tier: Tier, seed: u64) -> i32 {
         samples.push(Value::String("(no sample recorded)".into()));
     }
     let ev = json!({
-        "property_id": spec.id,
+        "property_id": id,
+        "binary": spec.id,
         "tier": tier.name(),
         "seed": seed,
         "level": "model_checking",
@@ -835,17 +853,18 @@ fn supervise(spec: &Spec, tier: Tier, seed: u64) -> i32 {
         Ok(part) => {
             let edir = root.join("target").join("evidence-parts");
             let _ = std::fs::create_dir_all(&edir);
-            std::fs::write(edir.join(format!("{}.{}.json", spec.id, part)), serde_json::to_string_pretty(&ev).unwrap()).expect("write evidence part");
+            std::fs::write(edir.join(format!("{}.{}.json", id, part)), serde_json::to_string_pretty(&ev).unwrap()).expect("write evidence part");
         }
         Err(_) => {
             let edir = root.join("evidence");
             let _ = std::fs::create_dir_all(&edir);
-            std::fs::write(edir.join(format!("{}.json", spec.id)), serde_json::to_string_pretty(&ev).unwrap()).expect("write evidence");
+            std::fs::write(edir.join(format!("{}.json", id)), serde_json::to_string_pretty(&ev).unwrap()).expect("write evidence");
         }
     }
     println!(
-        "{} {}: states={} transitions={} compared={} nontrivial={} distinct_outcomes={} violations={} known={} exhaustive={} wall={:.1}s",
-        spec.id,
+        "{}{} {}: states={} transitions={} compared={} nontrivial={} distinct_outcomes={} violations={} known={} exhaustive={} wall={:.1}s",
+        id,
+        if id != spec.id { format!("[{}]", spec.id) } else { String::new() },
         tier.name(),
         states,
         transitions,
@@ -891,8 +910,9 @@ fn replay(spec: &Spec, body: fn(&mut Ctx), path: &str, seed: u64) -> i32 {
         }
     };
     let j: Value = serde_json::from_str(&s).expect("replay json");
-    if j["property"].as_str() != Some(spec.id) {
-        eprintln!("replay file is for property {:?}, this is {}", j["property"], spec.id);
+    let id = eff_id(spec);
+    if j["property"].as_str() != Some(id.as_str()) {
+        eprintln!("replay file is for property {:?}, this is {}", j["property"], id);
         return 2;
     }
     let tier = if j["tier"].as_str() == Some("thorough") { Tier::Thorough } else { Tier::Quick };
@@ -906,7 +926,7 @@ fn replay(spec: &Spec, body: fn(&mut Ctx), path: &str, seed: u64) -> i32 {
                 println!("replay: fault did not reproduce");
                 return 0;
             }
-            println!("VIOLATION property={} replay={}  # reproduced: child exit {:?}", spec.id, path, st);
+            println!("VIOLATION property={} replay={}  # reproduced: child exit {:?}", id, path, st);
             return 1;
         }
         install_fault_handlers(spec.hang_secs);
@@ -937,7 +957,7 @@ fn replay(spec: &Spec, body: fn(&mut Ctx), path: &str, seed: u64) -> i32 {
         }
     }
     if hit {
-        println!("VIOLATION property={} replay={}", spec.id, path);
+        println!("VIOLATION property={} replay={}", id, path);
         1
     } else {
         println!("replay: the recorded violation did not reproduce on the current tree");
